@@ -87,8 +87,8 @@ func runOne(ctx context.Context, b backend, file string, timeoutS int) (string, 
 	for attempt := 0; attempt < 4; attempt++ {
 		var starved bool
 		st, out, starved = runOnce(ctx, b, file, timeoutS<<attempt) // a starved run is repeated with twice the wall-clock budget
-		if st != "timeout" || !starved || ctx.Err() != nil {
-			break
+		if st != "timeout" || !starved || ctx.Err() != nil || timeoutS <= 2 {
+			break // (vacuity cover queries run on a 1 s budget and are expected to time out: never repeated)
 		}
 	}
 	return st, out
